@@ -145,7 +145,11 @@ impl Report {
     /// Fold a per-case report into this one.
     pub fn merge(&mut self, from: Report) {
         for (k, v) in from.counters {
-            self.add(&k, v);
+            if k.contains("_max_") {
+                self.max(&k, v);
+            } else {
+                self.add(&k, v);
+            }
         }
         for v in from.violations {
             let key = format!("{}|{}", v.property, v.signature);
